@@ -21,6 +21,22 @@ import (
 var c15Alphabet = []byte("|&;<>()$`\\\"' \t\n*?[#~=%ab!{}^,:-]\x00\xc3\xa9")
 
 func drawString(ch chooser.Chooser, maxLen int) string {
+	if ch.Draw(48, "slong?") == 47 {
+		// One long run straddling the 4096-byte read buffer Split's scanner uses.
+		pre, post := drawShortString(ch, 4), drawShortString(ch, 4)
+		n := 4080 + ch.Draw(40, "srun")
+		f := c15Alphabet[ch.Draw(len(c15Alphabet), "sfill")]
+		b := make([]byte, 0, n+8)
+		b = append(b, pre...)
+		for i := 0; i < n; i++ {
+			b = append(b, f)
+		}
+		return string(append(b, post...))
+	}
+	return drawShortString(ch, maxLen)
+}
+
+func drawShortString(ch chooser.Chooser, maxLen int) string {
 	n := ch.Draw(maxLen+1, "slen")
 	b := make([]byte, n)
 	for i := range b {
